@@ -29,7 +29,7 @@ type C14Case struct {
 var c14Nums = []string{"0", "1", "2", "10"}
 var c14Pres = []string{"", "alpha", "alpha.1", "rc1", "rc.1", "0.3.7", "x-y-z", "beta-2", "RC1", "SNAPSHOT", "Beta-2", "-rc.1"}
 var c14Metas = []string{"", "git", "001", "a.b-c", "Build5", "build-7"}
-var c14NearMiss = []string{"1.2.3.4", "1..2", "abc", "1.2.x", "01.2.3", "1.2.3-01", "V1.2.3", " 1.2.3", "1.2.3 ", "1.2.3-rc_1", "1.2.3-", "1.2.3+", "v", "1.2.3-rc1+", "1.2.3-+b", "1.2.3-a..b", "1.2.3+a..b", "-1.2.3", "1.-2.3", "1.2.3-ü", "v1.2.3-01.1", "vv1.2.3", "1.2.3-rc.01", "1.2.3+001.01"}
+var c14NearMiss = []string{"1.2.3--", "1.0.0-rc-", "2.0.0+exp-", "1.2.3-rc-+m-", "1.2.3.4", "1..2", "abc", "1.2.x", "01.2.3", "1.2.3-01", "V1.2.3", " 1.2.3", "1.2.3 ", "1.2.3-rc_1", "1.2.3-", "1.2.3+", "v", "1.2.3-rc1+", "1.2.3-+b", "1.2.3-a..b", "1.2.3+a..b", "-1.2.3", "1.-2.3", "1.2.3-ü", "v1.2.3-01.1", "vv1.2.3", "1.2.3-rc.01", "1.2.3+001.01"}
 
 func c14Bases() []string {
 	var out []string
@@ -94,9 +94,9 @@ func enumC14(env *engine.Env, yield func(any) bool) {
 	versions = append(versions, c14NearMiss...)
 	versions = append(versions, "")
 	for _, schema := range []string{"", "semver", "none"} {
-		for _, ep := range []string{"", "explicit-pre", "-lead", "-", "RC.1"} {
-			for _, em := range []string{"", "explicit.meta", "Build-7"} {
-				if (ep == "-lead" || ep == "-" || ep == "RC.1") && em == "explicit.meta" {
+		for _, ep := range []string{"", "explicit-pre", "-lead", "-", "RC.1", "snapshot_3", "20240510.0830", "rc-", "a b"} {
+			for _, em := range []string{"", "explicit.meta", "Build-7", "build_7", "007"} {
+				if ep != "" && ep != "explicit-pre" && em == "explicit.meta" {
 					continue
 				}
 				for _, v := range versions {
